@@ -323,6 +323,10 @@ func (dm *DMap) putOnCluster(e *env) error {
 		if err != nil {
 			return err
 		}
+		if isKeyExpired(current.TTL()) {
+			// The key has expired but the eviction worker has not removed it yet.
+			return ErrKeyNotFound
+		}
 		e.value = current.Value()
 	}
 
